@@ -47,6 +47,7 @@ def parseOp (s : String) : Option Op :=
   | ["drop"] => some .dropHandles
   | "s" :: rest => (apiCtls rest).map (fun (p, cs) => .send p cs true)
   | "n" :: rest => (apiCtls rest).map (fun (p, cs) => .send p cs false)
+  | ["c", w] => some (.clone w.toNat!)
   | "m" :: rest => (apiCtls rest).map (fun (p, cs) => .inject p cs false)
   | "M" :: rest => (apiCtls rest).map (fun (p, cs) => .inject p cs true)
   | _ => none
